@@ -66,6 +66,9 @@ type SetA struct {
 	// TmplLabels: "" = the template carries the selector label; "none" = no labels map; "empty" = an empty map
 	// (both admitted by the CRD, which validates nothing inside template / selector)
 	TmplLabels string `json:"tmpl_labels,omitempty"`
+	// TmplMeta "junk": the template's metadata carries what a pasted pod manifest carries (a controlling owner reference to a
+	// ReplicaSet, name, namespace, generateName, uid, resourceVersion) next to annotations and finalizers
+	TmplMeta string `json:"tmpl_meta,omitempty"`
 }
 
 type VolA struct {
@@ -104,11 +107,12 @@ type RevA struct {
 }
 
 type WorldA struct {
-	Set    *SetA    `json:"set"`
-	Pods   []PodA   `json:"pods"`
-	Revs   []RevA   `json:"revs"`
-	Claims []string `json:"claims"`
-	Others []SetA   `json:"others"` // other sets (cache side only matters)
+	Set        *SetA    `json:"set"`
+	Pods       []PodA   `json:"pods"`
+	Revs       []RevA   `json:"revs"`
+	Claims     []string `json:"claims"`
+	ClaimsTerm []string `json:"claims_term,omitempty"`
+	Others     []SetA   `json:"others"` // other sets (cache side only matters)
 }
 
 func appLabel(s *SetA) string {
@@ -146,6 +150,18 @@ func templateFor(s *SetA) v1.PodTemplateSpec {
 		t.ObjectMeta.Labels = nil
 	case "empty":
 		t.ObjectMeta.Labels = map[string]string{}
+	}
+	if s.TmplMeta == "junk" {
+		yes := true
+		t.ObjectMeta.Name = "pasted-5d8f7c9b6-x2x7k"
+		t.ObjectMeta.GenerateName = "pasted-5d8f7c9b6-"
+		t.ObjectMeta.Namespace = "elsewhere"
+		t.ObjectMeta.UID = "pasted-uid"
+		t.ObjectMeta.ResourceVersion = "4711"
+		t.ObjectMeta.Annotations = map[string]string{"note": "kept"}
+		t.ObjectMeta.Finalizers = []string{"example.com/hold"}
+		t.ObjectMeta.OwnerReferences = []metav1.OwnerReference{{APIVersion: "apps/v1", Kind: "ReplicaSet", Name: "pasted-5d8f7c9b6",
+			UID: "rs-uid", Controller: &yes, BlockOwnerDeletion: &yes}}
 	}
 	return t
 }
@@ -297,7 +313,7 @@ func podA(pod *v1.Pod, setApp string) PodA {
 var patchCache = map[string][]byte{}
 
 func patchOf(base *SetA, k int) []byte {
-	key := fmt.Sprintf("%s/%d", appLabel(base), k)
+	key := fmt.Sprintf("%s/%d/%s/%s", appLabel(base), k, base.TmplLabels, base.TmplMeta)
 	if b, ok := patchCache[key]; ok {
 		return b
 	}
@@ -374,6 +390,20 @@ func revA(rev *kubeapps.ControllerRevision, base *SetA) RevA {
 func claimObject(name string) *v1.PersistentVolumeClaim {
 	return &v1.PersistentVolumeClaim{TypeMeta: metav1.TypeMeta{Kind: "PersistentVolumeClaim", APIVersion: "v1"},
 		ObjectMeta: metav1.ObjectMeta{Name: name, Namespace: ns}}
+}
+
+// claimObjectIn: the claim of that name in world w; a claim listed in claims_term is being deleted (deletion timestamp, held by
+// the pvc-protection finalizer): it exists, and for the controller it is an existing claim like any other
+func claimObjectIn(w *WorldA, name string) *v1.PersistentVolumeClaim {
+	c := claimObject(name)
+	for _, t := range w.ClaimsTerm {
+		if t == name {
+			ts := metav1.NewTime(epoch.Add(2 * time.Hour))
+			c.DeletionTimestamp = &ts
+			c.Finalizers = []string{"kubernetes.io/pvc-protection"}
+		}
+	}
+	return c
 }
 
 // hashTable: for template ids ks and collision counts 0..3, the hash string the real code derives.
